@@ -35,9 +35,14 @@ GW_EXTRA = {
     "0.824": {"method": "Constant", "dates": ["{start}"], "values": [0.824]},
     "0.271": {"method": "Constant", "dates": ["{start}"], "values": [0.271]},
     "slow_v": {"method": "Variable", "series": [[0, 0.55], [120, 1.40]]},   # crosses several centres slowly
+    # depths typed as Python integers mixed with fractional ones (values=[2, 1.5, 1.25]): the series must not take the type of one entry
+    "int_first_c": {"method": "Constant", "series": [[0, 2], [12, 1.5], [25, 1.25]]},
+    "int_first_v": {"method": "Variable", "series": [[0, 2], [20, 0.5], [9999, 1]]},
+    "int_all_c": {"method": "Constant", "series": [[0, 3], [10, 2], [20, 1]]},
+    "int_last_c": {"method": "Constant", "series": [[0, 1.75], [15, 0.6], [30, 2]]},
 }
 A.GW.update(GW_EXTRA)
-ALL_GW = ["none", "0.3", "0.8", "1.5", "2.5", "6", "50", "rising_c", "rising_v", "falling_v", "falling_c", "two_v", "four_c", "four_v", "late_v", "late_c", "early_v", "early_c", "all_before_c", "0", "touch0_v", "touch0_c", "0.05"]
+ALL_GW = ["none", "0.3", "0.8", "1.5", "2.5", "6", "50", "rising_c", "rising_v", "falling_v", "falling_c", "two_v", "four_c", "four_v", "late_v", "late_c", "early_v", "early_c", "all_before_c", "0", "touch0_v", "touch0_c", "0.05", "int_first_c", "int_first_v", "int_all_c", "int_last_c"]
 
 
 def scenarios(tier, seed=0):
